@@ -358,3 +358,60 @@ def check_C13(c):
     c.assumptions += ["the failing status carries the lowest bad byte of the failing request's range ('E@p'), code SSH_FX_FAILURE",
                       "after a cancelled transfer the harness lets the peer answer abandoned requests before it snapshots the served file"]
     return c.finish()
+
+
+def validate_lin(c, path, timeout=1800):
+    """Linearizability search by TLC (LinFile.tla). On a history that cannot be explained the search stops at it:
+    it is reported, cut out, and the search continues with the histories behind it."""
+    events = vlib.read_ndjson(path)
+    if not events:
+        raise Machinery("no events recorded in %s" % path)
+    found, accepted = [], 0
+    cur = events
+    states = 0
+    for rounds in range(300):
+        if not cur:
+            break
+        p = os.path.join(c.wd, "trace.ndjson")
+        with open(p, "w") as fh:
+            for e in cur:
+                fh.write(json.dumps(e) + "\n")
+        r = vlib.tlc("LinFile", "LinFile.cfg", c.wd, workers=1, timeout=timeout, files=[p], jvm="-Dtlc2.tool.queue.IStateQueue=StateDeque")
+        m = re.search(r'<<"HW", (\d+), (\d+)>>', r.raw)
+        if not m:
+            raise Machinery("linearizability search produced no verdict: %s\n%s" % (r.error, r.raw[-2000:]))
+        hw, need = int(m.group(1)), int(m.group(2))
+        states += r.distinct
+        if hw == need:
+            accepted += len(vlib.split_traces(cur))
+            break
+        tid = cur[hw - 1].get("t")
+        first = next(i for i, e in enumerate(cur) if e.get("t") == tid)
+        last = max(i for i, e in enumerate(cur) if e.get("t") == tid)
+        accepted += len(vlib.split_traces(cur[:first])) if first > 0 else 0
+        found.append({"trace": cur[first:last + 1], "stuck_at": cur[hw - 1]})
+        cur = cur[last + 1:]
+    c.cov["traces_validated_against_impl"] += accepted
+    c.cov["states"] += states
+    c.cov["transitions"] += states
+    c.cov["tlc_runs"].append({"module": "LinFile", "cfg": "LinFile.cfg", "mode": "linearizability search over recorded histories", "distinct": states})
+    log("[%s] linearizability search: %d events, %d histories accepted, %d rejected" % (c.prop, len(events), accepted, len(found)))
+    return found
+
+
+def check_C15(c):
+    rc, out, path = c.run("TestVerif_Lin", timeout=6000)
+    traces = count_traces(c, path, ["backend", "bs", "G", "R", "t"])
+    c.cov["rule"] = ("a case is one concurrent history: 2-4 goroutines x 3-5 single-packet operations (ReadAt / WriteAt of whole blocks, Stat) over one Client on one or two "
+                     "handles of the same file, against both servers with and without allocator; handler calls are randomly delayed; distinct = histories")
+    found = validate_lin(c, path)
+    for f in found:
+        head = f["trace"][0]
+        c.violation("NotLinearizable,backend=%s,bs=%s" % (head.get("backend"), head.get("bs")),
+                    "history cannot be explained by any sequential order respecting real time; the search is stuck at %s" % json.dumps(f["stuck_at"])[:300],
+                    {"module": "LinFile", "history": f["trace"][:300], "stuck_at": f["stuck_at"]})
+    if traces and len(c.cov["samples"]) < 3:
+        c.cov["samples"].append({"kind": "recorded history accepted by LinFile.tla", "events": traces[c.seed % len(traces)][:40]})
+    c.assumptions += ["os-backed server: only aligned single 8-byte blocks (the kernel copies those atomically); RequestServer: ranges on a mutex-protected in-memory file",
+                      "real-time order = order of Call/Ret events under the tracer mutex (an event order is only ever a sound under-approximation of precedence)"]
+    return c.finish()
